@@ -175,8 +175,17 @@ def _difftag(a, b):
 
 
 def gen_compile_op(rng, tier):
+    if rng.random() < 0.3:
+        # modules of the hand-built corpus: tables, rows, columns, compliance, capabilities, SMIv1 traps; 'full' and
+        # 'fullalt' share the module name and symbol names but not the roles of the symbols
+        cname = rng.choice(['full', 'fullalt', 'full', 'fullalt', 'v1', 'small'])
+        mname = {'full': 'FULL-MIB', 'fullalt': 'FULL-MIB', 'v1': 'OLD-MIB', 'small': 'AAA-MIB'}[cname]
+        op = {'op': 'compile', 'modules': {}, 'corpus': [cname], 'requested': [mname], 'codegen': 'pysnmp' if rng.random() < 0.1 else 'json', 'options': {}}
+        if rng.random() < 0.4:
+            op['options']['genTexts'] = True
+        return op
     n = rng.choice([1, 2, 2, 3])
-    specs = mibgen.gen_modules(rng, n, cycles=rng.random() < 0.3, defects=rng.choice([0.0, 0.0, 0.3]), smiv1=0.2, identity=0.6)
+    specs = mibgen.gen_modules(rng, n, cycles=rng.random() < 0.3, defects=rng.choice([0.0, 0.0, 0.3]), smiv1=0.2, identity=0.6, oiddefval=0.15)
     for sp in specs.values():
         if rng.random() < 0.2:
             sp['fakeidx'] = True
@@ -288,5 +297,5 @@ def describe(scn, out):
     d = copy.deepcopy({k: v for k, v in scn.items() if k != '_world'})
     for o in d['ops']:
         if o['op'] == 'compile':
-            o['modules'] = {n: {k: v for k, v in sp.items() if k in ('imports', 'variant', 'fakeidx', 'smiv1', 'identity', 'revisions')} for n, sp in o['modules'].items()}
+            o['modules'] = {n: {k: v for k, v in sp.items() if k in ('imports', 'variant', 'fakeidx', 'smiv1', 'identity', 'revisions')} for n, sp in o.get('modules', {}).items()}
     return {'history': d, 'shape': out.get('shape')}
